@@ -12,6 +12,7 @@ search: the property oracle -- coordinates mapped back through the model's own c
 import contextlib
 import copy
 import math
+import time
 
 import numpy as np
 import scipy.stats as real_sts
@@ -149,6 +150,10 @@ def gen_dim(rng, i, cond, prev=()):
     par = {}
     for (nm, kind, lo, hi) in plist:
         par[nm] = float(round(rng.uniform(lo, hi), 4))
+        if rng.random() < 0.15:   # Python ints as parameters (WeibullDistribution(alpha=2, beta=1, gamma=0), f_gamma=0, ...)
+            iv = int(round(par[nm]))
+            if lo <= iv <= hi and (kind == "real" or iv > 0):
+                par[nm] = iv
     d = {"fam": fam, "cond": cond, "par": par}
     if cond is not None:
         names = [p[0] for p in plist]
@@ -167,7 +172,7 @@ def cond_structures(n_dim):
     return out
 
 
-def gen_spec(rng, structure=None):
+def gen_spec(rng, structure=None, kind=None):
     if structure is None:
         n_dim = rng.choice([2, 2, 3, 3, 4])
         structure = rng.choice(cond_structures(n_dim))
@@ -176,7 +181,58 @@ def gen_spec(rng, structure=None):
     dims = []
     for i, c in enumerate(structure):
         dims.append(gen_dim(rng, i, c, dims))
-    return {"kind": rng.choice(["iform", "isorm"]), "alpha": float(alpha), "n_points": rng.randrange(3, 41), "dims": dims}
+    sp = {"kind": kind or rng.choice(["iform", "isorm"]), "alpha": float(alpha), "n_points": rng.randrange(3, 41), "dims": dims}
+    if rng.random() < 0.2:
+        sp["alpha_type"] = "np.float64"
+    return sp
+
+
+# ------------------------------------------------------------------ predefined models (fitted to the bundled data sets)
+PREDEFINED = [("get_DNVGL_Hs_Tz", "A_1year", False), ("get_DNVGL_Hs_U", "D_1year", True),
+              ("get_OMAE2020_Hs_Tz", "A_1year", False), ("get_OMAE2020_V_Hs", "D_1year", False),
+              ("get_DNVGL_Hs_Tz", "B_1year", False), ("get_OMAE2020_Hs_Tz", "C_1year", False)]
+CLASS_FAM = {"WeibullDistribution": "weibull", "LogNormalDistribution": "lognormal", "NormalDistribution": "normal",
+             "LogNormalNormFitDistribution": "lognormfit", "ExponentiatedWeibullDistribution": "expweib",
+             "GeneralizedGammaDistribution": "gengamma", "VonMisesDistribution": "vonmises", "AlgDistribution": "alg"}
+DEFAULT_N_POINTS = 180   # IFORMContour / ISORMContour called without n_points
+
+
+def n_points_of(spec):
+    return DEFAULT_N_POINTS if spec.get("n_points") is None else spec["n_points"]
+
+
+def build_predefined(spec, rec=None):
+    """GlobalHierarchicalModel of a predefined description, fitted to a shipped data set; fills spec["dims"]"""
+    import os
+    import virocon
+    import virocon.predefined as vp
+    dd, fd, _sem = getattr(vp, spec["predefined"])()
+    data = virocon.read_ec_benchmark_dataset(os.path.join(vlib.REPO, "datasets", "ec-benchmark_dataset_%s.txt" % spec["dataset"]))
+    if spec.get("swap"):
+        cols = data.columns.tolist()
+        data = data[cols[-1:] + cols[:1]]
+    model = virocon.GlobalHierarchicalModel(dd)
+    with np.errstate(all="ignore"):
+        model.fit(data, fd)
+    dims = []
+    for i, dist in enumerate(model.distributions):
+        c = model.conditional_on[i]
+        tmpl = dist if c is None else dist.distribution
+        fam = CLASS_FAM[type(tmpl).__name__]
+        names = [p[0] for p in FAMS[fam][1]]
+        assert names == list(tmpl.parameters), (names, list(tmpl.parameters))
+        if c is None:
+            par = {nm: float(tmpl.parameters[nm]) for nm in names}
+        else:
+            par = {nm: (float(dist.fixed_parameters[nm]) if nm in dist.fixed_parameters else {"shape": "predefined"}) for nm in names}
+        dims.append({"fam": fam, "cond": c, "par": par})
+        if rec is not None:
+            _wrap_template(tmpl, names, i, rec)
+            if c is not None:
+                for nm in list(dist.conditional_parameters):
+                    dist.conditional_parameters[nm] = _DepRec(dist.conditional_parameters[nm], rec.dep.setdefault((i, nm), {}), rec)
+    spec["dims"] = dims
+    return model
 
 
 # ------------------------------------------------------------------ recording
@@ -347,6 +403,8 @@ class _DepRec:
 
 def build_model(spec, rec=None):
     vc = _vc()
+    if "predefined" in spec:
+        return build_predefined(spec, rec)
     import virocon.distributions as vd
     from virocon import GlobalHierarchicalModel, DependenceFunction
     descs = []
@@ -386,7 +444,10 @@ def build_model(spec, rec=None):
 def make_contour(spec, model):
     vc = _vc()
     cls = vc.contours.IFORMContour if spec["kind"] == "iform" else vc.contours.ISORMContour
-    return cls(model, spec["alpha"], n_points=spec["n_points"])
+    alpha = np.float64(spec["alpha"]) if spec.get("alpha_type") == "np.float64" else spec["alpha"]
+    if spec.get("n_points") is None:
+        return cls(model, alpha)            # default number of points
+    return cls(model, alpha, n_points=spec["n_points"])
 
 
 # ------------------------------------------------------------------ property oracle
@@ -435,9 +496,11 @@ def expected_beta(spec):
 
 
 def oracle(spec, model, contour, rec=None, stats=None):
-    """None if the property holds on this contour, else (signature, message).  Fills stats (judged / unjudgeable)."""
+    """None if the property holds on this contour, else (signature, message).  Fills stats (judged / unjudgeable).
+    alpha in (0.5, 1) (inside the statement's (0,1), outside the quantifier's [1e-8, 0.5]): IFORM's beta is negative,
+    the distance is |beta| and the images are beta * direction; the largest-first-coordinate clause is not claimed there."""
     stats = stats if stats is not None else {}
-    nd, n = len(spec["dims"]), spec["n_points"]
+    nd, n = len(spec["dims"]), n_points_of(spec)
     cls = spec["kind"]
     coords = np.asarray(contour.coordinates, dtype=float)
     if coords.shape != (n, nd):
@@ -451,7 +514,8 @@ def oracle(spec, model, contour, rec=None, stats=None):
     if not abs(b - b_want) <= 1e-12 * max(abs(b_want), 1.0):
         what = "Phi^-1(1-alpha)" if cls == "iform" else "sqrt(chi2_%d^-1(1-alpha))" % nd
         return ({"contour": cls, "clause": "beta"}, "beta = %r but %s = %r (alpha = %r)" % (b, what, b_want, spec["alpha"]))
-    scale = max(b_want, 1.0)
+    r_want = abs(b_want)
+    scale = max(r_want, 1.0)
     dsum = du.sum(axis=1)
     judge = np.isfinite(uu).all(axis=1) & np.isfinite(dsum) & (dsum <= 1e-3 * scale)
     stats["judged"] = int(judge.sum())
@@ -459,18 +523,31 @@ def oracle(spec, model, contour, rec=None, stats=None):
     dist = np.sqrt((uu ** 2).sum(axis=1))
     tol = 1e-9 * scale + 4 * dsum
     for k in range(n):
-        if judge[k] and not abs(dist[k] - b_want) <= tol[k]:
+        if judge[k] and not abs(dist[k] - r_want) <= tol[k]:
             return ({"contour": cls, "clause": "distance", "n_dim": nd},
                     "point %d = %r maps back to u = %r at distance %r from the origin, beta = %r (tolerance %.3g)"
                     % (k, [float(v) for v in coords[k]], [float(v) for v in uu[k]], float(dist[k]), b_want, float(tol[k])))
+    # the attribute sphere_points: n points of norm |beta|, and they ARE the U-space images of the coordinates
+    sp = np.asarray(getattr(contour, "sphere_points", np.empty((0, 0))), dtype=float)
+    if sp.shape != (n, nd):
+        return ({"contour": cls, "clause": "sphere-points", "n_dim": nd}, "sphere_points have shape %r, expected (%d, %d)" % (sp.shape, n, nd))
+    spn = np.sqrt((sp ** 2).sum(axis=1))
+    if not np.all(np.abs(spn - r_want) <= 1e-12 * scale):
+        k = int(np.argmax(np.abs(spn - r_want)))
+        return ({"contour": cls, "clause": "sphere-points", "n_dim": nd},
+                "sphere_points[%d] = %r has norm %r, beta = %r" % (k, [float(v) for v in sp[k]], float(spn[k]), b_want))
+    for k in range(n):
+        if judge[k] and not np.all(np.abs(uu[k] - sp[k]) <= 1e-9 * scale + 4 * du[k]):
+            return ({"contour": cls, "clause": "sphere-points", "n_dim": nd},
+                    "point %d maps back to u = %r but sphere_points[%d] = %r" % (k, [float(v) for v in uu[k]], k, [float(v) for v in sp[k]]))
     # directions
-    if b_want > 1e-6 and judge.all():
-        unit = uu / dist[:, None]
+    if r_want > 1e-6 and judge.all():
+        unit = uu / dist[:, None] * (1.0 if b_want > 0 else -1.0)
         if nd == 2:
             for k in range(n):
                 phi = k * 2 * math.pi / n
                 want = np.array([math.cos(phi), math.sin(phi)])
-                if np.abs(unit[k] - want).max() > 1e-8 + 4 * dsum[k] / b_want:
+                if np.abs(unit[k] - want).max() > 1e-8 + 4 * dsum[k] / r_want:
                     return ({"contour": cls, "clause": "angles", "n_dim": 2},
                             "point %d has direction %r in U-space, expected angle %d*2pi/%d = %r" % (k, [float(v) for v in unit[k]], k, n, [float(v) for v in want]))
         else:
@@ -481,7 +558,7 @@ def oracle(spec, model, contour, rec=None, stats=None):
             if gram[j, k] > 1 - 1e-9:
                 return ({"contour": cls, "clause": "distinct-directions", "n_dim": nd}, "points %d and %d have the same direction in U-space" % (j, k))
     # largest first coordinate of a 2-D IFORM contour = marginal (1-alpha)-quantile
-    if nd == 2 and cls == "iform":
+    if nd == 2 and cls == "iform" and spec["alpha"] <= 0.5:
         d0 = model.distributions[0]
         if rec is not None:
             rec.on = False
@@ -503,6 +580,27 @@ def oracle(spec, model, contour, rec=None, stats=None):
         else:
             stats["unjudgeable_max"] = 1
     return None
+
+
+def repeat_oracle(spec):
+    """the same contour computed again in the same process (another contour with the same n_points in between) is the same
+    contour, and it is still a valid one: no state shared between contour objects / NSphere instances"""
+    try:
+        with np.errstate(all="ignore"):
+            model = build_model(spec)
+            c1 = make_contour(spec, model)
+            other = dict(spec, alpha=(0.03 if spec["alpha"] != 0.03 else 0.2), kind=("isorm" if spec["kind"] == "iform" else "iform"))
+            make_contour(other, model)
+            c2 = make_contour(spec, model)
+    except Exception as e:  # noqa
+        return ({"contour": spec["kind"], "clause": "unexpected-exception", "exc": type(e).__name__},
+                "%s raised %s: %s" % (spec["kind"], type(e).__name__, e))
+    for attr in ("coordinates", "sphere_points"):
+        a, b = np.asarray(getattr(c1, attr), dtype=float), np.asarray(getattr(c2, attr), dtype=float)
+        if a.shape != b.shape or not np.array_equal(a, b, equal_nan=True):
+            return ({"contour": spec["kind"], "clause": "repeatable", "n_dim": len(spec["dims"])},
+                    "%s of the same contour computed twice (one other contour in between) differ" % attr)
+    return oracle(spec, model, c2)
 
 
 def run_spec(spec, rec=None):
@@ -529,17 +627,33 @@ def replay(ctx, spec):
         dim, n = spec["nsphere"]
         s, _ = nsphere_trace(dim, n)
         o = nsphere_oracle(dim, n, s)
+    elif "calculate_alpha" in spec:
+        o = calculate_alpha_oracle(*spec["calculate_alpha"])
     else:
         _, _, o, _ = run_spec(spec)
+        if o is None and len(spec.get("dims", [0, 0])) >= 2:
+            o = repeat_oracle(spec)
     if o:
         print("  ", o[1])
     return o is not None
 
 
+def calculate_alpha_oracle(sd, rp):
+    vc = _vc()
+    a = vc.contours.calculate_alpha(sd, rp)
+    want = sd / (rp * 365.25 * 24)
+    if not abs(a - want) <= 4e-16 * abs(want):
+        return ({"contour": "calculate_alpha", "clause": "alpha"}, "calculate_alpha(%r, %r) = %r, expected %r" % (sd, rp, a, want))
+    return None
+
+
 def shrink(spec, clause):
     def fails(s):
         try:
-            _, _, o, _ = run_spec(s)
+            if clause == "repeatable":
+                o = repeat_oracle(s)
+            else:
+                _, _, o, _ = run_spec(s)
         except Exception:
             return False
         return o is not None and o[0].get("clause") == clause
@@ -550,21 +664,21 @@ def shrink(spec, clause):
         rounds += 1
         changed = False
         cands = []
-        if len(cur["dims"]) > 2:   # drop a variable nobody is conditional on (re-index the later conditional_on entries)
+        if len(cur["dims"]) > 2 and "predefined" not in cur:   # drop a variable nobody is conditional on (re-index the later conditional_on entries)
             for j in range(len(cur["dims"]) - 1, 0, -1):
                 if all(d["cond"] != j for d in cur["dims"]):
                     rest = [dict(d, cond=(d["cond"] - 1 if d["cond"] is not None and d["cond"] > j else d["cond"]))
                             for k2, d in enumerate(cur["dims"]) if k2 != j]
                     cands.append(dict(cur, dims=rest))
         for npnt in (3, 4, 8):
-            if cur["n_points"] > npnt:
+            if n_points_of(cur) > npnt:
                 cands.append(dict(cur, n_points=npnt))
         if cur["alpha"] not in (0.1, 0.01):   # one step only (a strictly decreasing measure keeps the loop finite)
             for a in (0.1, 0.01):
                 cands.append(dict(cur, alpha=a))
             if float("%.2g" % cur["alpha"]) != cur["alpha"]:
                 cands.append(dict(cur, alpha=float("%.2g" % cur["alpha"])))
-        for i, d in enumerate(cur["dims"]):
+        for i, d in enumerate(cur["dims"] if "predefined" not in cur else []):
             for nm, v in d["par"].items():
                 if isinstance(v, dict) and sum(isinstance(w, dict) for w in d["par"].values()) > 1:
                     lo = [p for p in FAMS[d["fam"]][1] if p[0] == nm][0]
@@ -635,9 +749,9 @@ def coq_case(k, spec, rec, contour, pp):
     nsph = "[" + "; ".join("((%d%%nat, %d%%nat), %s)" % (dim, n, fl_mat(rows)) for (dim, n), rows in rec.nsph.items()) + "]"
     txt = "Definition ft_%d := mkft %s %s %s %s %s %s.\n" % (k, tab1(rec.phi), tab1(rec.phiinv), tab1(rec.cos), tab1(rec.sin), chi2, nsph)
     txt += "Definition ds_%d : list fdist := [%s].\n" % (k, ";\n  ".join(ds))
-    fn = "iformF" if spec["kind"] == "iform" else "isormF"
+    fn = "iform_vecF" if spec["kind"] == "iform" else "isormF"   # IFORM: the column-wise evaluation of the code
     txt += "Definition c_%d : Z := cmp_case (%s ft_%d ds_%d %s %d%%nat) ds_%d %s %s %s %s.\n" % (
-        k, fn, k, k, fl(spec["alpha"]), spec["n_points"], k, fl(float(contour.beta)),
+        k, fn, k, k, fl(spec["alpha"]), n_points_of(spec), k, fl(float(contour.beta)),
         fl_mat(np.asarray(contour.sphere_points, dtype=float)), fl_mat(np.asarray(contour.coordinates, dtype=float)), fl_mat(pp))
     return txt
 
@@ -730,12 +844,35 @@ def run(ctx):
     _vc()
     ctx.proof_gate()
     rng = ctx.rng
+    tm = {"proof_gate": round(time.time() - ctx.t0, 1)}
+    t_last = [time.time()]
+
+    def lap(name):
+        tm[name] = round(time.time() - t_last[0], 1)
+        t_last[0] = time.time()
     ncases = ctx.n(200, 4000)
     structures = [s for nd in (2, 3, 4) for s in cond_structures(nd)]
-    specs = [gen_spec(rng, structure=structures[i]) if i < len(structures) else gen_spec(rng) for i in range(ncases)]
+    # every admissible conditional_on structure (incl. the chains [None, 0, 1] and [None, 0, 1, 2]) with IFORM and with ISORM first
+    specs = [gen_spec(rng, structure=st, kind=kd) for st in structures for kd in ("iform", "isorm")]
+    specs += [gen_spec(rng) for _ in range(ncases - len(specs))]
     # a few fixed corner configurations
-    for sp, (a, npnt) in zip(specs[len(structures):], [(0.5, 3), (1e-8, 40), (1e-8, 3), (0.5, 40)]):
+    for sp, (a, npnt) in zip(specs[2 * len(structures):], [(0.5, 3), (1e-8, 40), (1e-8, 3), (0.5, 40)]):
         sp["alpha"], sp["n_points"] = a, npnt
+    # alpha in (0.5, 1): inside the statement's (0,1), outside the quantifier (beta < 0 for IFORM)
+    for _ in range(ctx.n(16, 200)):
+        sp = gen_spec(rng)
+        sp["alpha"] = float(round(rng.uniform(0.5, 0.999), 6))
+        specs.append(sp)
+    # every predefined hierarchical model, fitted to shipped data sets; alpha from calculate_alpha and the range ends;
+    # default number of points (180) and explicit ones
+    vc = _vc()
+    pre_alphas = [float(vc.contours.calculate_alpha(1, 50)), float(vc.contours.calculate_alpha(3, 1)), 1e-8, 0.5,
+                  float(vc.contours.calculate_alpha(1.0, 20.0)), 0.01]
+    for j, (name, dataset, swap) in enumerate(PREDEFINED):
+        for kd in ("iform", "isorm"):
+            for a in rng.sample(pre_alphas, ctx.n(2, 6)):
+                specs.append({"predefined": name, "dataset": dataset, "swap": swap, "kind": kd, "alpha": a,
+                              "n_points": None if rng.random() < 0.3 else rng.randrange(3, 41)})
 
     cases = []   # (spec, rec, model, contour, oracle result, stats)
     dist = {"kind": {}, "n_dim": {}, "family": {}, "structure": {}, "shape": {}}
@@ -748,10 +885,21 @@ def run(ctx):
         judged += st.get("judged", 0)
         unjudge += st.get("unjudgeable", 0)
         min_sep = min(min_sep, st.get("min_sep", math.pi))
+        if "dims" not in sp:      # construction itself failed
+            continue
         nd = len(sp["dims"])
-        for kk, vv in (("kind", sp["kind"]), ("n_dim", nd), ("structure", str([d["cond"] for d in sp["dims"]]))):
+        for kk, vv in (("kind", sp["kind"]), ("n_dim", nd), ("structure", "%s %s" % (sp["kind"], [d["cond"] for d in sp["dims"]]))):
             dist[kk][vv] = dist[kk].get(vv, 0) + 1
+        if "predefined" in sp:
+            dist.setdefault("predefined", {})
+            dist["predefined"][sp["predefined"]] = dist["predefined"].get(sp["predefined"], 0) + 1
+        if sp["alpha"] > 0.5:
+            dist.setdefault("alpha>0.5", {"n": 0})["n"] += 1
+        if sp.get("n_points") is None:
+            dist.setdefault("default_n_points", {"n": 0})["n"] += 1
         for d in sp["dims"]:
+            if any(isinstance(v, int) for v in d["par"].values()):
+                dist.setdefault("int_parameter_dims", {"n": 0})["n"] += 1
             dist["family"][d["fam"]] = dist["family"].get(d["fam"], 0) + 1
             for v in d["par"].values():
                 if isinstance(v, dict):
@@ -767,6 +915,7 @@ def run(ctx):
         ctx.sample({"spec": sp, "beta": None if contour is None else float(contour.beta),
                     "first_point": None if contour is None else [float(v) for v in np.asarray(contour.coordinates)[0]]})
 
+    lap("real_contours_and_oracle")
     # ---- correspondence: contours
     per = 12
     items, index = [], []
@@ -782,7 +931,7 @@ def run(ctx):
         index.append([i for i, _ in chunk])
     # ---- correspondence: NSphere (full relaxation loop, every iteration)
     ns_cfg = []
-    used = sorted({(len(c[0]["dims"]), c[0]["n_points"]) for c in cases if len(c[0]["dims"]) > 2})
+    used = sorted({(len(c[0]["dims"]), c[0]["n_points"]) for c in cases if len(c[0].get("dims", [])) > 2 and c[0].get("n_points")})
     for dim in (3, 4):
         cand = [u for u in used if u[0] == dim] or [(dim, rng.randrange(3, 41))]
         for _ in range(ctx.n(1, 4)):
@@ -795,15 +944,35 @@ def run(ctx):
         items.append(("nsphere_%d" % k, PRELUDE + coq_nsphere_case(k, dim, n, s, tr) + "Eval vm_compute in [ns_%d].\n" % k))
         index.append(("ns", k))
         ctx.count(("nsphere", dim, n), True)
+    # ---- correspondence: calculate_alpha (floats and ints), bit for bit
+    ca_in = []
+    for _ in range(ctx.n(60, 600)):
+        sd = rng.choice([1, 3, 6, 0.5, 1.0, round(rng.uniform(0.1, 12), 3)])
+        rp = rng.choice([1, 20, 25, 50, 100, 0.5, round(rng.uniform(0.1, 1000), 3)])
+        ca_in.append((sd, rp, float(vc.contours.calculate_alpha(sd, rp))))
+    items.append(("calc_alpha", PRELUDE + "Eval vm_compute in [%s].\n" % "; ".join(
+        "(if fbits_eq (calculate_alphaF %s %s) %s then 0 else 2)%%Z" % (fl(sd), fl(rp), fl(a)) for sd, rp, a in ca_in)))
+    index.append(("ca", 0))
+    lap("case_files_and_nsphere_traces")
     outs = ctx.coq_eval_many(items, jobs=12, timeout=1500)
+    lap("coq_evaluation")
     ncmp = nexact = 0
     inexact = []
+    ca_bad = []
     suspects = []
     ns_bad = []
     for idx, o in zip(index, outs):
         if o is None:
             continue
         codes = vlib.parse_term(o[0])
+        if isinstance(idx, tuple) and idx[0] == "ca":
+            for (sd, rp, a), code in zip(ca_in, codes):
+                ncmp += 1
+                nexact += code == 0
+                if code != 0:
+                    ctx.mismatch("calculate_alpha(%r, %r)" % (sd, rp), "model and implementation differ")
+                    ca_bad.append((sd, rp))
+            continue
         if isinstance(idx, tuple):
             dim, n, s, tr = ns_runs[idx[1]]
             ncmp += 1
@@ -844,8 +1013,13 @@ def run(ctx):
         o = nsphere_oracle(dim, n, s)
         if o and ctx.violation(o[0], o[1], {"nsphere": [dim, n]}):
             found += 1
+    lap("search")
     # oracle-only sweep over EVERY n_points in 3..400 (2-D models: point count, distinct equally spaced angles, distance, max clause)
-    sweep_specs = [gen_spec(rng, structure=rng.choice(cond_structures(2))) for _ in range(2)]
+    sweep_specs = []
+    while len(sweep_specs) < 2:   # von Mises quantiles are a root search per point (minutes over 400 contours): not in the sweep
+        sp = gen_spec(rng, structure=rng.choice(cond_structures(2)))
+        if all(d["fam"] != "vonmises" for d in sp["dims"]):
+            sweep_specs.append(sp)
     nsweep = 0
     for n_pts in range(3, ctx.n(401, 1201)):
         sp = dict(sweep_specs[n_pts % 2], n_points=n_pts, kind="iform" if n_pts % 3 else "isorm")
@@ -857,11 +1031,50 @@ def run(ctx):
             o2 = o2 or o
             if ctx.violation(o2[0], "%s contour (n_points sweep): %s" % (sp["kind"].upper(), o2[1]), small):
                 found += 1
-    ctx.cov["evaluations"] += nsweep
+    lap("n_points_sweep")
+    # calculate_alpha: the documented formula on the disagreeing inputs first, then on all
+    for sd, rp in ca_bad + [(x, y) for x, y, _ in ca_in]:
+        o = calculate_alpha_oracle(sd, rp)
+        if o and ctx.violation(o[0], o[1], {"calculate_alpha": [sd, rp]}):
+            found += 1
+            break
+    # n_dim 3 and 4 with many points (NSphere with 41..200 samples, and the default of 180): oracle only
+    nbig = 0
+    for k in range(ctx.n(8, 60)):
+        sp = gen_spec(rng, structure=rng.choice(cond_structures(rng.choice([3, 4]))))
+        sp["n_points"] = None if k % 4 == 0 else rng.randrange(41, 201)
+        _, _, o, st = run_spec(sp)
+        nbig += 1
+        min_sep = min(min_sep, st.get("min_sep", math.pi))
+        if o is not None and found < 8:
+            small = shrink(sp, o[0].get("clause"))
+            _, _, o2, _ = run_spec(small)
+            o2 = o2 or o
+            if ctx.violation(o2[0], "%s contour (many points): %s" % (sp["kind"].upper(), o2[1]), small):
+                found += 1
+    lap("many_points")
+    # the same contour computed twice in one process (another contour with equal n_points in between)
+    nrep = 0
+    rep_specs = [c[0] for i, c in enumerate(cases) if "dims" in c[0] and (("predefined" in c[0] and i % 4 == 0) or (len(c[0]["dims"]) > 2 and i % 6 == 0))]
+    for sp in rep_specs[:ctx.n(40, 400)]:
+        o = repeat_oracle(sp)
+        nrep += 1
+        if o is not None and found < 8:
+            small = shrink(sp, o[0].get("clause"))
+            o2 = repeat_oracle(small) or o
+            if ctx.violation(o2[0], "%s contour (computed twice): %s" % (sp["kind"].upper(), o2[1]), small):
+                found += 1
+    lap("computed_twice")
+    ctx.notes["timing_s"] = tm
+    ctx.cov["evaluations"] += nsweep + nbig + nrep + len(ca_in)
+    ctx.notes["extra_streams"] = {"n_dim>=3_many_points_oracle_only": nbig, "computed_twice": nrep, "calculate_alpha_pairs": len(ca_in)}
+    ctx.notes["oracle_points"]["min_direction_separation_rad_nd>=3"] = min_sep
     ctx.notes["n_points_sweep"] = "every n_points in 3..%d on two 2-D models (oracle only)" % (ctx.n(401, 1201) - 1)
     ctx.cov["rule"] = ("random GlobalHierarchicalModels: n_dim 2-4, every admissible conditional_on (all 32 structures first), 9 families "
                        "(7 shipped + ScipyDistribution(gamma) + an algebraic duck-typed one), fixed/dependent parameter subsets, 9 dependence shapes "
-                       "incl. chained; IFORM and ISORM; alpha log-uniform in [1e-8, 0.5] + end points; n_points 3-40 in the correspondence and every n_points in 3..400 through the oracle; non-trivial = at least one "
+                       "incl. chained, int- and float-typed parameters; all 32 structures x {IFORM, ISORM}; the 4 predefined hierarchical models fitted to shipped data sets "
+                       "(alpha from calculate_alpha); alpha log-uniform in [1e-8, 0.5] + end points, a stream in (0.5, 1); n_points 3-40 and the default 180 in the "
+                       "correspondence, every n_points in 3..400 (2-D) and 41-200 (3-/4-D) through the oracle; contours computed twice; non-trivial = at least one "
                        "conditional variable and a contour whose points are not all equal; distinct = hash of the specification")
     ctx.cov["trusted_base"] = ["Coq 8.16.1 kernel + vm_compute (primitive floats)", "harness tools/harness/c01.py (generators, recorders, comparison)",
                                "scipy norm/chi2/family cdf-ppf, numpy cos/sin/RandomState.normal, NSphere forces/potential as recorded oracles",
